@@ -70,7 +70,11 @@ def _job(args):
 
 def run_props(props, jobs=None):
     from .witnesses import W
-    todo = [x for x in W if x["prop"] in props]
+    try:
+        from .witnesses_seeded import W_SEEDED
+    except ImportError:
+        W_SEEDED = []
+    todo = [x for x in list(W) + list(W_SEEDED) if x["prop"] in props]
     bases = {}
     for p in sorted({x["prop"] for x in todo}):
         bases[p] = baseline(p)
